@@ -1,6 +1,6 @@
 SPECIFICATION Spec
 CONSTANT MaxGiven = 2
-CONSTANT AllInvalid = FALSE
+CONSTANT Combo = "rep"
 INVARIANT TypeOK
 INVARIANT Total
 INVARIANT GivenReaches
